@@ -60,6 +60,7 @@ var inlineErrMsgs = map[string]bilingualMsg{
 	"fstringBlock":        {"{% %} 内必须是语句块或表达式", "{% %} must contain statements or an expression"},
 	"fstringExpr":         {"{} 内必须是语句块或表达式", "{} must contain statements or an expression"},
 	"keywordAsName":       {"使用关键字作为变量名", "Keyword used as a variable name"},
+	"invalidEncoding":     {"输入不是有效的文本编码", "invalid encoding"},
 }
 
 // parseErr 按当前解析器自身的语言设置生成语法规则内部的错误
